@@ -54,8 +54,9 @@ def offline(ctx, res):
             res.viols.append({"t": "viol", "prop": "C01", **v})
     res.counters["cli_replays"] = runs[0]
     fuzz_cov = fuzz_leg(ctx, res) if ctx["tier"] == "thorough" else {"skipped": "libFuzzer + ASan leg runs in the thorough tier only"}
+    miri_cov = miri_leg(ctx, res) if ctx["tier"] == "thorough" else {"skipped": "Miri shard runs in the thorough tier only"}
     return {"evaluations": runs[0], "nontrivial": 0, "distinct_nontrivial": 0,
-            "coverage": {"libfuzzer_asan_leg": fuzz_cov, "cli_leg": {"records_replayed": len(recs), "cli_invocations": runs[0], "modes": ["file", "inline", "-e stdin", "--format", "-i", "stdin inputs"]}}}
+            "coverage": {"libfuzzer_asan_leg": fuzz_cov, "miri_leg": miri_cov, "cli_leg": {"records_replayed": len(recs), "cli_invocations": runs[0], "modes": ["file", "inline", "-e stdin", "--format", "-i", "stdin inputs"]}}}
 
 
 def max_nesting(src):
@@ -150,3 +151,55 @@ def fuzz_leg(ctx, res):
         res.inconclusive_cases.append(f"libFuzzer {os.path.basename(f).split('-')[0]} artefact (resource exhaustion class, no verdict)")
     return {"status": "ran", "seconds": round(time.time() - t0, 1), "executions_reported": execs, "seed_corpus_files": n, "crash_artifacts": len(crashes),
             "timeout_or_oom_artifacts": len(others), "artifacts_confirmed_by_probe_monitors": confirmed, "sanitizer": "AddressSanitizer (cargo-fuzz default), nightly toolchain"}
+
+
+def miri_leg(ctx, res):
+    """Thorough only: a small shard of the built-in x pool and operator x pool sweeps under Miri (nightly). The repository has no
+    unsafe code of its own, so this checks its dependencies (pest, indexmap / hashbrown, serde_json, regex ...) as driven by Blots
+    for undefined behaviour. Slow (about 30 s start-up per process), so the shard is tiny."""
+    import subprocess
+    import time
+    if os.environ.get("VERIF_MIRI", "1") == "0":
+        return {"skipped": "VERIF_MIRI=0"}
+    harness = os.path.join(common.VERIF, "harness")
+    env = dict(common.ENV)
+    env["MIRIFLAGS"] = "-Zmiri-disable-isolation"
+    t0 = time.time()
+    b = subprocess.run(["cargo", "+nightly", "miri", "run", "--bin", "probe", "--", "C01", "--part", "none"], cwd=harness, env=env,
+                       stdout=subprocess.PIPE, stderr=subprocess.STDOUT, text=True, timeout=1500)
+    if b.returncode not in (0, 2):
+        return {"status": "inconclusive: probe does not build / start under Miri", "tail": b.stdout[-400:]}
+    jobs = [("builtins", i, 2500) for i in range(8)] + [("operators", i, 1200) for i in range(8)]
+
+    def one(job):
+        part, i, n = job
+        shard = (ctx["seed"] * 7 + i) % n
+        try:
+            p = subprocess.run(["cargo", "+nightly", "miri", "run", "--bin", "probe", "--", "C01", "--part", part, "--tier", "quick", "--shard", f"{shard}/{n}"],
+                               cwd=harness, env=env, stdout=subprocess.PIPE, stderr=subprocess.PIPE, text=True, timeout=1500)
+        except subprocess.TimeoutExpired:
+            return ("timeout", part, shard, 0, "")
+        evals = 0
+        for line in p.stdout.splitlines():
+            try:
+                ev = json.loads(line)
+            except Exception:
+                continue
+            if ev.get("t") == "stats":
+                evals = ev.get("evaluations", 0)
+            if ev.get("t") == "viol" and ev.get("prop") == "C01":
+                ev["case"]["found_by"] = "Miri shard"
+                res.viols.append(ev)
+        ub = "Undefined Behavior" in p.stderr
+        return ("ub" if ub else ("ok" if p.returncode == 0 else f"rc={p.returncode}"), part, shard, evals, p.stderr[-600:] if ub or p.returncode != 0 else "")
+
+    results = common.pmap(one, jobs, workers=16)
+    total = sum(r[3] for r in results)
+    for st, part, shard, evals, tail in results:
+        if st == "ub":
+            res.viols.append({"t": "viol", "prop": "C01", "sig": "miri-undefined-behaviour", "what": "Miri reported undefined behaviour while the pipeline ran",
+                              "case": {"part": part, "shard": shard, "stderr_tail": tail}})
+        elif st != "ok":
+            res.inconclusive_cases.append(f"Miri shard {part} {shard}: {st} {tail[-200:]}")
+    return {"status": "ran", "seconds": round(time.time() - t0, 1), "processes": len(jobs), "cases_interpreted": total,
+            "undefined_behaviour_reports": sum(1 for r in results if r[0] == "ub")}
